@@ -109,6 +109,8 @@ func checkC07(w *World, r *Report) {
 	checkDivGuard(w, r, tm, tree)
 	checkAddrCanon(w, r, tm)
 	checkCoinsCtor(w, r, tm)
+	checkNilInt(w, r, tm)
+	checkNoMut(w, r, tm, "NO-MUT")
 	// a quantity rounded up, or a payment rounded down, makes a payment exceed its reservation: the refund is negative
 	// and constructing that coin panics inside block processing
 	r.Sub(checkC04, "RD-DIR")
